@@ -250,6 +250,11 @@ def run(ctx):
     c15.rule_scope(facts, ctx, lambda b: b.file in ("src/file_source.rs", "src/tcp_source.rs", "src/sigmf.rs", "src/au.rs", "src/lib.rs"), rule_id="C14.R3")
     rule_r4(facts, ctx)
     rule_r5(facts, ctx)
+    from . import c16
+    c16.rule_r7(facts, ctx, rule_id="C14.R6")
+    c16.rule_r9(facts, ctx, rule_id="C14.R7", scope=lambda b: b.file in ("src/file_source.rs", "src/tcp_source.rs", "src/sigmf.rs", "src/au.rs"))
+    ctx.floor("C14.R7", 4, "EOF verdicts of the byte sources (FileSource, TcpSource, SigMFSource)")
+    ctx.floor("C14.R6", 1, "SigMFSource's restart seek (archive member offset) - same rule as C16.R7")
     ctx.floor("C14.R5", 3, "carry-buffer drops in FileSource (drain), SigMFSource (drain), TcpSource (clear)")
     ctx.floor("C14.R1", 6, "5 numeric Sample impls + the AU pair")
     ctx.floor("C14.R2", 3, "AuDecode state transitions")
